@@ -465,12 +465,13 @@ def parse_run_tags(s):
 
 # ---------------------------------------------------------------- main
 _CONFIRMED = [0]
+CASE_LIMIT_S = 150      # wall-clock allowance per case inside a worker (a case normally takes < 1 s)
 
 
 def run_impl_cases(cases, tag):
     nw = min(cm.NCPU, max(1, len(cases) // 8))
     chunks = [cases[i::nw] for i in range(nw)]
-    res = cm.run_impl_parallel(PID, "c14", [dict(cases=c) for c in chunks], timeout=900, tag=tag)
+    res = cm.run_impl_parallel(PID, "c14", [dict(cases=c, case_limit_s=CASE_LIMIT_S) for c in chunks], timeout=900, tag=tag)
     out = [None] * len(cases)
     for wk, (rr, ch) in enumerate(zip(res, chunks)):
         idxs = list(range(wk, len(cases), nw))
@@ -493,6 +494,18 @@ def run_impl_cases(cases, tag):
                     out[i] = s["result"]["results"][0]
                 else:
                     out[i] = dict(harness_exc=f"PROCESS-{s['status'].upper()}", harness_msg=f"rc={s.get('rc')} {s.get('log', '')[-300:]}")
+    # cases that ran into the in-worker allowance: believed only after a run ALONE without that allowance
+    for i, x in enumerate(out):
+        if isinstance(x, dict) and x.get("harness_exc") == "CASE-TIMEOUT":
+            if _CONFIRMED[0] >= 3:
+                out[i] = dict(harness_exc="PROCESS-UNCONFIRMED-TIMEOUT", harness_msg="not re-run (3 hangs already confirmed)")
+                continue
+            _CONFIRMED[0] += 1
+            s1 = cm.run_impl(PID, "c14", dict(cases=[cases[i]]), timeout=900, tag=tag + "_alone")
+            if s1["status"] == "ok":
+                out[i] = s1["result"]["results"][0]
+            else:
+                out[i] = dict(harness_exc=f"PROCESS-{s1['status'].upper()}", harness_msg=f"rc={s1.get('rc')} {s1.get('log', '')[-300:]}")
     return out
 
 
